@@ -185,12 +185,30 @@ def spec_expressible(rr):
 
     def ok_tree(t):
         if t[0] == "leaf":
+            if t[1]["fn"] in ("is_instance", "keys_is_instance") or t[1]["pre"] == "dtype":
+                return False          # in a spec a string in a type position NAMES a type: not the same condition
             return all(ok_val(a) for a in t[1]["actuals"]) and all(ok_val(a) for a in t[1]["akw"].values())
         if t[0] == "null":
             return True
         return ok_tree(t[1]) and ok_tree(t[2])
 
     return all(isinstance(p, tuple) for p in rr["rparts"]) and ok_tree(rr["cond"])
+
+
+def has_tuple_arg(t):
+    def tv(v):
+        if isinstance(v, tuple):
+            return True
+        if isinstance(v, list):
+            return any(tv(x) for x in v)
+        if isinstance(v, dict):
+            return any(tv(x) for x in v.values())
+        return False
+    if t[0] == "leaf":
+        return any(tv(a) for a in t[1]["actuals"]) or any(tv(a) for a in t[1]["akw"].values())
+    if t[0] == "null":
+        return False
+    return has_tuple_arg(t[1]) or has_tuple_arg(t[2])
 
 
 def literal_of(rr, doc):
@@ -225,6 +243,13 @@ def run(rep, tier, seed):
             if rng.random() < 0.35 and spec_expressible(rr):
                 from harness.props import grammardrv as gd
                 spec = gd.spell_rule(rng, rr)         # path arguments as path specs, literal path-like keys escaped
+                if rng.random() < 0.4 and not has_tuple_arg(rr["cond"]):
+                    # (no tuple arguments: JSON has none) ... or the spec the LIBRARY writes for the API-built rule (its own escaping), through JSON text
+                    import json
+                    try:
+                        spec = json.loads(json.dumps(ruledrv.build_rule(rr).to_json_like()))
+                    except Exception:  # noqa
+                        pass
             e = ruledrv.ruletest_event(len(events) + 1, rr, doc, "raw", lit, spec=spec)
             rec = {"op": "ruletest", "rule": ruledrv.lit_rule(rr), "doc": to_lit(doc), "entry": "raw",
                    "lit": ruledrv.lit_rule(lit) if lit else None, "via_spec": spec is not None}
